@@ -54,6 +54,8 @@ type caseSpec struct {
 	// Connect 6000 ms after its Join, "start:" = one party joins that late
 	// while the others already wait, "leader:" = the leader's Connect is late).
 	Late string `json:"late,omitempty"`
+	// Wide marks a session with many connections per pair (beyond 1..4).
+	Wide bool `json:"wide,omitempty"`
 }
 
 type gate struct {
@@ -74,11 +76,17 @@ type caseResult struct {
 var profiles = []string{"none", "light", "heavy", "dialslow", "acceptslow", "oneslow", "light", "midaccept"}
 
 func genCase(r *hxlib.Rng, idx int, tier string) caseSpec {
-	cs := caseSpec{Idx: idx}
-	// every (n, m) combination of 2..6 x 1..4 in turn, then random
+	// every (n, m) combination of 2..6 x 1..4 in turn
 	combo := idx % 20
-	cs.N = 2 + combo%5
-	cs.M = 1 + (combo/5+idx/20)%4
+	return genCaseNM(r, idx, tier, 2+combo%5, 1+(combo/5+idx/20)%4)
+}
+
+// genCaseNM: a session of n parties with m connections per pair; join order,
+// start mode, start offsets and delay profile derive from r and idx.
+func genCaseNM(r *hxlib.Rng, idx int, tier string, n, m int) caseSpec {
+	cs := caseSpec{Idx: idx}
+	cs.N = n
+	cs.M = m
 	peers := make([]int, 0, cs.N-1)
 	for i := 1; i < cs.N; i++ {
 		peers = append(peers, i)
@@ -172,11 +180,12 @@ func main() {
 
 func meshMain(args []string) int {
 	var par int
-	var profile, late string
+	var profile, late, wide string
 	cf, o := hxlib.ParseCommon("c19", args, func(fs *flag.FlagSet) {
 		fs.IntVar(&par, "par", 6, "sessions run in parallel (child processes)")
 		fs.StringVar(&profile, "profile", "", "force one delay profile")
 		fs.StringVar(&late, "late", "", "extra long-delay sessions, e.g. gap:6000,start:12000,leader:6000")
+		fs.StringVar(&wide, "wide", "", "extra sessions with many connections per pair, n:m list, e.g. 2:17,3:64")
 	})
 	defer o.Close()
 	rng := hxlib.NewRng(cf.Seed)
@@ -218,6 +227,22 @@ func meshMain(args []string) int {
 			order = append(order, i)
 		}
 	}
+	if wide != "" {
+		for _, item := range strings.Split(wide, ",") {
+			var n, m int
+			if k, _ := fmt.Sscanf(item, "%d:%d", &n, &m); k != 2 || n < 2 || n > 8 || m < 1 || m > 256 {
+				fmt.Fprintf(os.Stderr, "bad -wide item %q\n", item)
+				return 2
+			}
+			i := len(specs)
+			cs := genCaseNM(rng.Fork(), i, cf.Tier, n, m)
+			cs.Wide = true
+			cs.DeadMs += 200 * n * m
+			cs.Port = 10000 + ((pid*131+i)%2750)*8
+			specs = append(specs, cs)
+			order = append(order, i)
+		}
+	}
 	for i := 0; i < cf.N; i++ {
 		order = append(order, i)
 	}
@@ -246,7 +271,12 @@ func meshMain(args []string) int {
 		op := fmt.Sprintf("c19 %d %d %s", cs.N, cs.M, res.Trace)
 		o.Op(op, "run=ok end="+res.End)
 		o.Count("sessions")
-		o.Count(fmt.Sprintf("n%d_m%d", cs.N, cs.M))
+		if cs.Wide {
+			o.Count("wide_sessions")
+			o.Count(fmt.Sprintf("wide_n%d_m%d", cs.N, cs.M))
+		} else {
+			o.Count(fmt.Sprintf("n%d_m%d", cs.N, cs.M))
+		}
 		o.Count("profile_" + cs.Profile)
 		o.Count("mode_" + cs.Mode)
 		o.Count("end_" + res.End)
